@@ -78,6 +78,12 @@ func genC18(r *Rng, tier string, idx int) *Plan {
 		// one OIDC client registered for two chains that differ in everything else
 		p.Spec.Filters[1].ClientID = p.Spec.Filters[0].ClientID
 	}
+	if r.Chance(0.2) {
+		// chain names are free-form labels (logging); nothing requires them to differ
+		for i := range p.Spec.Filters {
+			p.Spec.Filters[i].Chain = "oidc"
+		}
+	}
 	p.Mode = topo
 	id := 0
 	nid := func() int { id++; return id }
